@@ -245,7 +245,8 @@ def run(ctx):
     # ---- the log: corpus first, then generated from the seed
     hist = os.path.join(wd, "hist.jsonl")
     n = 300 if ctx.tier == "quick" else 3000
-    rc, o = vlib.sh([binp, "-gen", "-seed", str(ctx.seed), "-tier", ctx.tier, "-n", str(n), "-out", hist], timeout=3000)
+    now_unix = int(time.time()) + 5
+    rc, o = vlib.sh([binp, "-gen", "-seed", str(ctx.seed), "-tier", ctx.tier, "-n", str(n), "-now-unix", str(now_unix), "-out", hist], timeout=3000)
     if rc != 0:
         if types.get("missing"):
             cov.update({"evaluations": 0, "distinct_nontrivial": 0, "rule": "generator refuses to run: uncovered message types", "samples": []})
@@ -383,6 +384,7 @@ def run(ctx):
     cov.update({
         "evaluations": len(hists),
         "distinct_nontrivial": nontrivial,
+        "generator_now_unix": now_unix,
         "rule": "histories = scripted (manual virtual IPs taken from 2-3 services at once; rejected commands whose error text is built while ranging over a map) + corpus + generated from the seed: 3/4 'full' profile (5-40 commands drawn from generators for every registered message type, built the way the leader builds them -- Normalize/Validate/SetHash, IDs and timestamps fixed in the command -- against a live FSM so that ~65% of CAS indexes and most references are valid; leadership preamble; chunked commands; ignorable unknown types; log-verifier checkpoints), 1/4 'core' profile (the commands coq/Store/Model.v models). distinct_nontrivial = distinct logs (by content) with at least one state-changing entry",
         "log_entries_applied_per_replica": steps_total,
         "replicas": [{"name": hd.get("replica"), "gomaxprocs": hd.get("gomaxprocs"), "tz": hd.get("tz"), "plant_delays": hd.get("plant_delays"),
